@@ -156,7 +156,8 @@ class Model:
                 "oid": self.fail_oid.get(id(exc)),
                 # the failure happened in the same render function as the
                 # handler (not inside a macro call or slot content)?
-                "same_function": bool(info) and info[1] == self.fn_depth})
+                "same_function": bool(info) and info[1] == self.fn_depth,
+                "use_stack": list(self.fail_stack.get(id(exc), []))})
             return self.error.type.__name__
         raise ValueError(k)
 
